@@ -562,6 +562,8 @@ C09Fails(me, x, now, res, c0, f0, c1, f1) ==
 G3 == {"p1", "p2", "p3"}
 G4 == {"p1", "p2", "p3", "p4"}
 
+MaxA(S) == CHOOSE p \in S : \A q \in S : Addr[q] <= Addr[p]
+MinA(S) == CHOOSE p \in S : \A q \in S : Addr[p] <= Addr[q]
 Swap1(S, a, b) == IF a \in S THEN (S \ {a}) \cup {b} ELSE S        \* substitute participant b for a
 SubstT(t, a, b) == [t EXCEPT !.ldr = IF @ = a THEN b ELSE @, !.rem = Swap1(@, a, b),
                             !.join = Swap1(@, a, b), !.leav = Swap1(@, a, b)]
@@ -610,6 +612,10 @@ Mutations(t, now) ==
          SubstT(t, "p2", "f2")}                                          \* attacker key under a member's address
         \cup (IF t.ep > 1 THEN {[t EXCEPT !.ep = @ - 1]} ELSE {})        \* stale epoch
         \cup (IF "p2" \in t.rem THEN {[t EXCEPT !.rem = @ \ {"p2"}]} ELSE {})                    \* drops a member
+        \* drops a member but names another one twice (remaining AND leaving): the lists are as long as the group
+        \cup (IF "p2" \in t.rem /\ (t.rem \cup t.leav) \ {"p2", t.ldr} # {}
+              THEN LET q == MaxA((t.rem \cup t.leav) \ {"p2", t.ldr})
+                   IN {[t EXCEPT !.rem = (@ \ {"p2"}) \cup {q}, !.leav = @ \cup {q}]} ELSE {})
         \cup (IF t.ep > 1 THEN {[t EXCEPT !.rem = @ \ {t.ldr}, !.leav = @ \cup {t.ldr}],        \* leader leaving
                                 [t EXCEPT !.rem = @ \ {t.ldr}, !.join = @ \cup {t.ldr}]} ELSE {}) \* leader joining
         \cup (IF "p4" \in t.join THEN {SubstT(t, "p4", "b4")} ELSE {})   \* bad joiner self-signature
@@ -623,8 +629,6 @@ Mutations(t, now) ==
 (* joining ++ remaining ++ leaving keeps its order (lists are ordered by address): head of Leaving ->    *)
 (* tail of Remaining, tail of Remaining -> head of Leaving, tail of Joining -> head of Remaining, head   *)
 (* of Remaining -> tail of Joining.  The signed bytes must say WHICH list a participant is in.           *)
-MaxA(S) == CHOOSE p \in S : \A q \in S : Addr[q] <= Addr[p]
-MinA(S) == CHOOSE p \in S : \A q \in S : Addr[p] <= Addr[q]
 Shifts(t) ==
   IF t.ep <= 1 THEN {}
   ELSE (IF t.leav # {} THEN {[t EXCEPT !.leav = @ \ {MinA(t.leav)}, !.rem = @ \cup {MinA(t.leav)}]} ELSE {})
@@ -701,6 +705,9 @@ Commands(me, c, f, now) ==
             ELSE {Reshare(base.ep + 1, g, sh, tm) : sh \in Shapes, tm \in Timeouts(now)}
       mut(t) == {t, [t EXCEPT !.thr = MinT(Cardinality(t.join) + Cardinality(t.rem)) - 1], [t EXCEPT !.tmo = now]}
                 \cup (IF "p2" \in t.rem /\ me # "p2" THEN {[t EXCEPT !.rem = @ \ {"p2"}]} ELSE {})
+                \cup (IF "p2" \in t.rem /\ me # "p2" /\ (t.rem \cup t.leav) \ {"p2", me} # {}
+                      THEN LET q == MaxA((t.rem \cup t.leav) \ {"p2", me})
+                           IN {[t EXCEPT !.rem = (@ \ {"p2"}) \cup {q}, !.leav = @ \cup {q}]} ELSE {})
                 \cup (IF Rich THEN {[t EXCEPT !.thr = Cardinality(t.join) + Cardinality(t.rem) + 1], SubstT(t, "p3", "g3")} ELSE {})
       muts(T) == IF Rich THEN UNION {mut(t) : t \in T}
                  ELSE T \cup UNION {mut(t) : t \in {u \in T : u.tmo = LongTmo /\ u.leav = {}}}
